@@ -375,6 +375,18 @@ fn attempt(
             return Err(("Failed to construct a useful datetime".to_string(), count));
         }
     }
+    // Today's date stands in only for a literal that has no date field at all (`#10:30#`).
+    // A date that was written but is incomplete (`--03-15`, `2020-W05`, `jan 5`) is an error.
+    let mut date_fields = parsed.clone();
+    date_fields.hour_div_12 = None;
+    date_fields.hour_mod_12 = None;
+    date_fields.minute = None;
+    date_fields.second = None;
+    date_fields.nanosecond = None;
+    date_fields.offset = None;
+    if date.is_err() && date_fields != Parsed::new() {
+        return Err(("Failed to construct a useful datetime".to_string(), count));
+    }
     if let Some(tz) = tz {
         match (time, date) {
             (Ok(time), Ok(date)) => tz
